@@ -95,4 +95,59 @@ func legC12ErrExit(c *Ctx) {
 		}
 	}
 	c.Gate("error-exit histories ran", n >= 10)
+
+	// MatchTimeout is an ordinary field of the Regexp: after untimed calls, a Regexp that is given a timeout answers like
+	// a freshly compiled one with that timeout (and the other way round) — nothing a pooled runner remembers may decide
+	for _, sc := range []struct {
+		name          string
+		first, second time.Duration
+		text          string
+		wantTimeout   bool
+	}{
+		{"untimed calls, then MatchTimeout=40ms on a catastrophic text", regexp2.DefaultMatchTimeout, 40 * time.Millisecond, strings.Repeat("a", 26) + "b", true},
+		{"calls under 20ms, then no timeout on a slow but finite text", 20 * time.Millisecond, regexp2.DefaultMatchTimeout, strings.Repeat("a", 19) + "b", false},
+		{"calls under 5s, then MatchTimeout=40ms on a catastrophic text", 5 * time.Second, 40 * time.Millisecond, strings.Repeat("a", 26) + "b", true},
+	} {
+		cs := &Case{Desc: "MatchTimeout changed on a used Regexp `(a+)+!$`: " + sc.name, Nontrivial: true, Key: "mt:" + sc.name, Class: "timeout-field"}
+		run := func(re *regexp2.Regexp) string {
+			type res struct {
+				ok  bool
+				err error
+			}
+			ch := make(chan res, 1)
+			go func() {
+				ok, err := re.MatchString(sc.text)
+				ch <- res{ok, err}
+			}()
+			select {
+			case r := <-ch:
+				if r.err != nil {
+					return "timeout"
+				}
+				return fmt.Sprint(r.ok)
+			case <-time.After(20 * time.Second):
+				return "still running after 20s"
+			}
+		}
+		used := regexp2.MustCompile(`(a+)+!$`)
+		used.MatchTimeout = sc.first
+		for _, t := range []string{"aa!", "xaab", "", "aaa!"} {
+			used.MatchString(t)
+			used.FindStringMatch(t)
+		}
+		used.MatchTimeout = sc.second
+		fresh := regexp2.MustCompile(`(a+)+!$`)
+		fresh.MatchTimeout = sc.second
+		want := "false"
+		if sc.wantTimeout {
+			want = "timeout"
+		}
+		gu, gf := run(used), run(fresh)
+		if gf != want {
+			cs.Direct = fmt.Sprintf("the freshly compiled Regexp answers %s, expected %s (scenario needs adjusting?)", gf, want)
+		} else if gu != gf {
+			cs.Direct = fmt.Sprintf("the used Regexp answers %s, a freshly compiled one with the same MatchTimeout %s", gu, gf)
+		}
+		c.Add(cs)
+	}
 }
